@@ -160,6 +160,17 @@ def _ref_chain(lib, chain):
         if est is None:
             return {'precondition-failed': out}
         return libops.op_evaluate(est, chain[2])
+    if kind == 'evaluate_plain':
+        # estimate made from a plain dict copy of the descriptors
+        out, d = libops.op_decompose(lib, chain[1])
+        if d is None:
+            return {'precondition-failed': out}
+        out, est = libops.op_estimate(lib, dict(d))
+        if est is None:
+            return {'precondition-failed': out}
+        return libops.op_evaluate(est, chain[2])
+    if kind == 'mapping_api':
+        return mapping_api(lib)
     if kind == 'evaluate2':
         # an estimate made first, then later merges into its library, then
         # the evaluation -- all of it first in a fresh process
@@ -182,6 +193,14 @@ def _ref_chain(lib, chain):
     if kind == 'groups':
         return {'ok': True, 'value': sorted(str(g) for g in lib)}
     raise ValueError(kind)
+
+
+def mapping_api(lib):
+    """The library's public Mapping face: len, iteration, membership."""
+    names = sorted(str(g) for g in lib)
+    return {'ok': True, 'value': [len(lib), core.digest(names)[:16],
+                                  all(n in lib for n in names[:20]),
+                                  'no such group' in lib]}
 
 
 def _ref_setup_any(arg):
@@ -285,7 +304,12 @@ class History(object):
         what = 'obs=%s|ref=%s' % (_cls(obs), _cls(ref))
         if _cls(obs) == _cls(ref) and obs.get('warn') != ref.get('warn'):
             what += '|warnings-differ'
-        self.viol('fresh-equivalence', what, '%s%s|%s' % (kind, tag, what),
+        sig = '%s%s|%s' % (kind, tag, what)
+        if 'plain-mapping,' in tag:
+            # one defect, whatever it surfaces as (a value of another
+            # molecule, or the error of parsing that molecule's name)
+            sig = '%s%s' % (kind, tag)
+        self.viol('fresh-equivalence', what, sig,
                   dict(detail, observed=_trim(obs), reference=_trim(ref)), idx)
         return False
 
@@ -450,7 +474,9 @@ class History(object):
             self.probe('other_decomposition_between_decompose_and_estimate')
         if d['slot'] != op['slot']:
             self.probe('estimate_from_decomposition_of_other_slot')
-        out, est = libops.op_estimate(s['lib'], d['d'])
+        plain = bool(op.get('plain'))
+        out, est = libops.op_estimate(s['lib'], dict(d['d']) if plain
+                                      else d['d'])
         lin = _lin_copy(s['lineage'])
         ref = reference(lin, ['estimate', d['mol']])
         self.compare('estimate', out, ref, idx,
@@ -459,7 +485,13 @@ class History(object):
         if est is not None:
             self.ests[op['out']] = {'e': est, 'lineage': lin, 'mol': d['mol'],
                                     'slot': op['slot'], 'made_at': idx,
-                                    'libobj': s['lib']}
+                                    'libobj': s['lib'], 'plain': plain,
+                                    # what the library had decomposed last
+                                    # when the estimate was made
+                                    'lib_last_mol': s['last_mol'],
+                                    'lib_ndecomp': s['ndecomp']}
+            if plain:
+                self.probe('estimate_from_plain_copy_of_descriptors')
         else:
             self.after_failure = idx
         return ['estimate', d['mol'], core.digest(out)[:12]]
@@ -485,9 +517,20 @@ class History(object):
             # the reference does exactly the same, first, in a fresh process
             self.probe('estimate_evaluated_after_later_merge')
             ref = reference(e['lineage'], ['evaluate2', e['mol'], v, later])
+        elif e.get('plain'):
+            ref = reference(e['lineage'], ['evaluate_plain', e['mol'], v])
         else:
             ref = reference(e['lineage'], ['evaluate', e['mol'], v])
         tag = '[S_el]' if v.get('S_el') else ''
+        if e.get('plain') and v.get('S_el'):
+            # stratum of the known finding: a plain mapping cannot carry its
+            # molecule, the estimate falls back to the library's last one
+            if e['lib_ndecomp'] == 0:
+                tag += '[plain-mapping,library-never-decomposed]'
+            elif e['lib_last_mol'] != e['mol']:
+                tag += '[plain-mapping,library-decomposed-other-since]'
+            else:
+                tag += '[plain-mapping]'
         self.compare('evaluate', out, ref, idx,
                      {'lineage': e['lineage'], 'mol': e['mol'], 'variant': v},
                      tag)
@@ -555,6 +598,16 @@ class History(object):
         self.after_merge = idx
         return ['merge', a['lineage']['base'][0], b['lineage']['base'][0],
                 op['overwrite'], out.get('exc')]
+
+    def do_mapping_api(self, op, idx):
+        s = self.slots.get(op['slot'])
+        if s is None or s.get('baseline') is not None:
+            return None
+        out = mapping_api(s['lib'])
+        lin = _lin_copy(s['lineage'])
+        ref = reference(lin, ['mapping_api'])
+        self.compare('mapping_api', out, ref, idx, {'lineage': lin})
+        return ['mapping_api', core.digest(out)[:12]]
 
     def do_digest(self, op, idx):
         s = self.slots.get(op['slot'])
@@ -646,7 +699,8 @@ def gen_spec(run_seed, tier='quick'):
     w = {'decompose': rng.uniform(1, 4), 'estimate': rng.uniform(1, 4),
          'evaluate': rng.uniform(1, 5), 'group_eval': rng.uniform(0, 1.5),
          'merge': rng.uniform(0, 1.2), 'load': rng.uniform(0.2, 1.0),
-         'format': rng.uniform(0, 0.6), 'read_pattern': rng.uniform(0, 0.5)}
+         'format': rng.uniform(0, 0.6), 'read_pattern': rng.uniform(0, 0.5),
+         'mapping_api': rng.uniform(0, 0.8)}
     env_ops = rng.random() < 0.3
     if env_ops and rng.random() < 0.4:
         # the override is wrong from the start and corrected later
@@ -703,7 +757,8 @@ def gen_spec(run_seed, tier='quick'):
                         'value': rng.choice([None, '<bundled>',
                                              '/nonexistent/pgradd-data'])})
             continue
-        kinds = ['decompose', 'load', 'group_eval', 'format', 'read_pattern']
+        kinds = ['decompose', 'load', 'group_eval', 'format', 'read_pattern',
+                 'mapping_api']
         lib = slots[c['slot']]
         mine = [d for d in descs if d[1] == lib]
         if mine:
@@ -731,7 +786,8 @@ def gen_spec(run_seed, tier='quick'):
             name = 'e%d' % ne
             ne += 1
             ops.append({'op': 'estimate', 'client': cid, 'slot': tgt,
-                        'from': d[0], 'out': name})
+                        'from': d[0], 'out': name,
+                        'plain': rng.random() < 0.15})
             ests.append(name)
         elif k == 'evaluate':
             e = rng.choice(ests) if rng.random() < 0.5 else ests[-1]
@@ -746,6 +802,8 @@ def gen_spec(run_seed, tier='quick'):
             ops.append({'op': 'format', 'client': cid, 'slot': sid,
                         'gi': rng.randrange(0, 400),
                         'units': rng.choice(FORMAT_UNITS)})
+        elif k == 'mapping_api':
+            ops.append({'op': 'mapping_api', 'client': cid, 'slot': sid})
         elif k == 'read_pattern':
             ops.append({'op': 'read_pattern', 'client': cid,
                         'text': rng.choice(PATTERNS)})
@@ -765,8 +823,21 @@ def plan(tier, verif_seed):
     n = int(os.environ.get('VERIF_C15_RUNS', n))
     chunk = 5 if tier == 'quick' else 25
     seeds = [core.H(verif_seed, 'C15', j) for j in range(n)]
-    return [{'id': 'h-%d' % j, 'seeds': seeds[j:j + chunk]}
-            for j in range(0, n, chunk)]
+    tasks = [{'id': 'h-%d' % j, 'seeds': seeds[j:j + chunk]}
+             for j in range(0, n, chunk)]
+    # the recorded example history of every open known finding is replayed
+    # on every run, so each listed finding is exercised (and printed) and a
+    # repaired one is noticed
+    from sim import findings
+    ex = [dict(ent['example'], property=PROP, run_seed='known-%d' % i,
+               config={'clients': 1, 'libs': [], 'fault_kinds': []})
+          for i, ent in enumerate(findings.load())
+          if ent['property'] == PROP and ent.get('status') == 'open'
+          and ent.get('example', {}).get('ops')]
+    if ex:
+        tasks.append({'id': 'known-finding-examples', 'seeds': [],
+                      'specs': ex})
+    return tasks
 
 
 def _grams(spec, hist):
@@ -785,12 +856,13 @@ def _grams(spec, hist):
 
 def run_task(task):
     results = []
-    for seed in task['seeds']:
-        spec = gen_spec(seed)
+    specs = [(seed, gen_spec(seed)) for seed in task['seeds']]
+    specs += [(sp['run_seed'], sp) for sp in task.get('specs') or []]
+    for seed, spec in specs:
         viols, dig, h = execute_spec(spec)
         for v in viols:
             v['spec'] = spec
-            v['run'] = 'h%d' % seed
+            v['run'] = 'h%s' % seed
         by = {}
         kept = []
         for v in viols:
@@ -798,7 +870,7 @@ def run_task(task):
             if by[v['signature']] <= 1:
                 kept.append(v)
         results.append({
-            'id': 'h%d' % seed, 'digest': dig, 'violations': kept,
+            'id': 'h%s' % seed, 'digest': dig, 'violations': kept,
             'violation_counts': by, 'stats': h['stats'],
             'probes': h['probes'],
             'grams': sorted(_grams(spec, h)),
